@@ -93,6 +93,7 @@ def run_symx(mod, mod_name, prop, args, seed):
     # thorough; 1 resp. 2 queries per chosen cell)
     for i, c in enumerate(cells):
         c.setdefault('seed', seed)
+        c.setdefault('time_limit', 900 if args.tier == 'quick' else 2700)
         if 'cross_check' not in c:
             c['cross_check'] = (1 if i % 4 == 0 else 0) if args.tier == 'quick' else 2
     if args.cell:
@@ -122,6 +123,9 @@ def run_symx(mod, mod_name, prop, args, seed):
                 done_ids.add(r['id'])
                 if args.v:
                     _print_cell(r)
+                if time.time() > deadline and len(results) < len(cells):
+                    pool.terminate()
+                    break
             unfinished = [c['id'] for c in cells if c['id'] not in done_ids]
     cell_by_id = {c['id']: c for c in cells}
     known = load_known()
